@@ -31,7 +31,7 @@ INVS = {
 CLAUSE_PROP = {
     "C12_GlobalOrder": "C12", "C12_ClockEqualsEventTime": "C12", "C12_ClockMonotone": "C12", "C12_StageOrder": "C12",
     "C12_AtMostOnce": "C12", "C12_ExactlyOnce": "C12", "C12_KnownEventsOnly": "C12",
-    "C13_NotEarly": "C13", "C13_AtMostOnce": "C13", "C13_Ordered": "C13", "C13_AllRan": "C13", "C13_KnownJobsOnly": "C13",
+    "C13_NotEarly": "C13", "C13_AtMostOnce": "C13", "C13_Ordered": "C13", "C13_AllRan": "C13", "C13_KnownJobsOnly": "C13", "C13_FaultContained": "C13",
     "C14_BoundedConcurrency": "C14", "C03_NoLookAhead": "C03",
 }
 # a failing handler or job must not prevent the others (C14 fault isolation): the exactly-once / all-ran clauses
@@ -217,7 +217,8 @@ def slim(r: dict, tid: int) -> dict:
     return {"id": tid, "cfg": r["cfg"],
             "log": [{"kind": e["kind"], "ev": e["ev"], "job": e.get("job", 0), "src": e["src"], "when": e["when"], "h": e["h"],
                      "stage": e["stage"], "seg": e["seg"], "clock": e["clock"]} for e in r["log"]],
-            "events": r["events"], "sched": r["sched"], "orders": r["orders"], "clean": r["clean"]}
+            "events": r["events"], "sched": r["sched"], "orders": r["orders"], "clean": r["clean"],
+            "returned": r.get("outcome", "returned") == "returned"}
 
 
 def tlc_batches(module: str, traces: List[dict], wd: str, postcondition: str, shards: int, deque: bool = False):
